@@ -98,6 +98,27 @@ func genC07(r *rand.Rand, tier string, idx int) []string {
 			g.emit("txn %s %s", t, b.bid)
 		}
 	}
+	if r.Intn(3) == 0 {
+		// several NewEmpty caches beside the ordinary ones: each is a private world — what one writes or commits
+		// must never show through another, nor through any block / state cache of the case
+		for i, n := 0, 2+r.Intn(2); i < n; i++ {
+			g.nt++
+			t := fmt.Sprintf("e%d", g.nt)
+			g.txns = append(g.txns, t)
+			g.emit("empty %s", t)
+			for _, k := range g.keys {
+				switch r.Intn(4) {
+				case 0, 1:
+					g.emit("tset %s %s %s", t, k, g.val())
+				case 2:
+					g.emit("trem %s %s", t, k)
+				}
+			}
+			if r.Intn(2) == 0 {
+				g.emit("tcommit %s", t)
+			}
+		}
+	}
 	maxOps := 40
 	if tier == "thorough" {
 		maxOps = 100
@@ -138,7 +159,7 @@ func (g *c06gen) newBlockWithParent(prev string) {
 func init() {
 	register(&Suite{
 		Name: "c07",
-		Rule: "random histories of set/remove/get/commit over several transaction caches per block and several block caches (committed, uncommitted, abandoned, all commit orders) with mutable values — byte slices with identity (even cases) and real trie nodes LeafNode / FullNode with and without a value / ExtensionNode / ValueNode (odd cases) — where every value handed in or out is mutated in place right after the call and re-read through transaction, block, query and state layers; strict oracle (privacy: no foreign hit; publish: no miss within capacity); non-trivial = at least one hit from a pending layer and one hit from a committed ancestor, with at least 2 commits",
+		Rule: "random histories of set/remove/get/commit over several transaction caches per block and several block caches (committed, uncommitted, abandoned, all commit orders) with mutable values — byte slices with identity (even cases) and real trie nodes LeafNode / FullNode with and without a value / ExtensionNode / ValueNode; several statecache.NewEmpty() caches (private worlds), NewBlockTxnCaches, block caches on a fresh state cache with the same hashes (odd cases) — where every value handed in or out is mutated in place right after the call and re-read through transaction, block, query and state layers; strict oracle (privacy: no foreign hit; publish: no miss within capacity); non-trivial = at least one hit from a pending layer and one hit from a committed ancestor, with at least 2 commits",
 		Gen:  genC07,
 		Run: func(ops []string) CaseResult {
 			return runSCSeq(ops, true, true, func(w *scWorld) bool { return w.layerHits > 0 && w.ancestorHits > 0 && w.mutations >= 2 })
